@@ -276,6 +276,53 @@ shard(histories3, "k0", range(NE), KINDS, globals())
 for _w in shard(histories4, "k0", range(NE), KINDS, globals()):
     shard(_w, "k1", range(NE), KINDS, globals())
 
+# ------------------------------------------------------------------------------------------------ resend cadence
+@harness(pre=["(0 <= gap) & (gap <= 3) & (1 <= t0) & (t0 <= 3) & (1 <= t1) & (t1 <= 3) & (1 <= t2) & (t2 <= 3) & (1 <= t3) & (t3 <= 3)",
+              "0 <= ackat <= 4"], post="_", timeout=400, covers=COVERS,
+         note="retransmission cadence: two reliable injections `gap` in 0..3 s apart (either direction each), then four timer runs "
+              "1..3 s apart (all solver-chosen) with an acknowledgement of the first injection arriving before timer run `ackat` "
+              "(or never): at every timer run EXACTLY the unacknowledged injections whose last transmission is at least the "
+              "configured 3 s ago are re-sent, each once, same id, RELIABLE+RESENT, in injection order; an acknowledged one is "
+              "never re-sent and its completion signal has fired; the other's has not")
+def resend_cadence(d0: bool, d1: bool, gap: int, t0: int, t1: int, t2: int, t3: int, ackat: int) -> bool:
+    f = px.reset([])
+    every = f.circuit.resend_every
+    dirs = [OUT if d0 else IN, OUT if d1 else IN]
+    gap, ackat = small(gap, 0, 3), small(ackat, 0, 4)
+    ticks = [small(t, 1, 3) for t in (t0, t1, t2, t3)]
+    pend = []                      # [direction, wire id, last sent, future, acked]
+    for i, d in enumerate(dirs):
+        if i == 1:
+            px.Clock.now_s += gap
+        before = len(f.rec.sent)
+        msg = Message("ChatFromViewer" if d is OUT else "ChatFromSimulator", Block("ChatData", fill_missing=True), direction=d,
+                      flags=REL)
+        fut = f.circuit.send_reliable(msg)
+        new = f.rec.sent[before:]
+        if len(new) != 1:
+            return False
+        pend.append([d, new[0][0].packet_id, px.Clock.now_s, fut, False])
+    for n, dt_ in enumerate(ticks):
+        if ackat == n:
+            # the other side acknowledges the first injection (a standalone PacketAck travelling the opposite way)
+            d, wire = pend[0][0], pend[0][1]
+            ack = Message("PacketAck", Block("Packets", ID=wire), packet_id=500 + n, direction=IN if d is OUT else OUT)
+            px.inject_packet(ack, outgoing=(ack.direction is OUT))
+            pend[0][4] = True
+        px.Clock.now_s += dt_
+        before = len(f.rec.sent)
+        f.circuit.resend_unacked()
+        got = [(x[0].direction, x[0].packet_id, x[0].flags & (REL | RESENT)) for x in f.rec.sent[before:]]
+        exp = []
+        for p_ in pend:
+            if not p_[4] and px.Clock.now_s - p_[2] >= every:
+                exp.append((p_[0], p_[1], REL | RESENT))
+                p_[2] = px.Clock.now_s
+        if got != exp:
+            return False
+    return pend[0][3].done() == pend[0][4] and not pend[1][3].done()
+
+
 EVIDENCE = {
     "bounds": "event sequences of length 3 (quick) / 4 (thorough) from the initial circuit state over 10 event kinds (incl. PacketAck "
               "with one body id, one body id + one appended ack, two body ids), direction symbolic per event, acknowledged id(s) "
